@@ -3,7 +3,7 @@ from plib import *
 from props.builder import Prog, PProg
 from props.common import ProgRunner, parse
 
-LEAN_TARGETS = ["Plonk.Props.C05"]
+LEAN_TARGETS = ["Plonk.Props.C05", "Plonk.Props.C05Perm"]
 ASSUMPTIONS = ["Fiat-Shamir challenges avoid the explicit bad-challenge sets (random-oracle assumption)",
                "KZG/pairing layer is exercised, not modelled, in this check (see C20)"]
 THEOREMS_NOTE = "Plonk/Props/C05.lean"
@@ -61,7 +61,7 @@ def raw_family_case(rng, fam, violate):
     elif fam == "logic":
         isx = rng.coin()
         a, b, d = rng.fe() % 1000, rng.fe() % 1000, rng.fe() % 1000
-        qa, qb = rng.below(4), rng.below(4)
+        qa, qb = rng.choice([(0, 0), (0, 1), (1, 0), (1, 2), (2, 1), (3, 3), (rng.below(4), rng.below(4))])
         qd = (qa ^ qb) if isx else (qa & qb)
         an, bn, dn, cw = 4 * a + qa, 4 * b + qb, 4 * d + qd, qa * qb
         if violate:
@@ -69,7 +69,10 @@ def raw_family_case(rng, fam, violate):
             if j == 0: an += 4
             elif j == 1: bn += 4
             elif j == 2: dn += 4
-            elif j == 3: cw += 1
+            elif j == 3:
+                alts = logic_alt_roots(qa, qb, isx)
+                cw = alts[0] if alts else cw + 1     # another root of the per-quad cubic: only `w = a*b` fails
+                if alts: p.tags.append("logic-product-other-root")
             else: dn = 4 * d + ((qd + 1) % 4)
         q[5] = R - 1 if isx else 1
         q[8] = R - 1 if isx else 1
@@ -107,6 +110,51 @@ def raw_family_case(rng, fam, violate):
         q[9] = 1
         ws = [p.w(x) for x in (A[0], A[1], xy, acc)]
         nx = [p.w(x3), p.w(y3), p.w(rng.fe()), p.w(accn)]
+    elif fam == "fixed-free":
+        # the selectors the widget reads (q_l, q_r, q_c) chosen INDEPENDENTLY (not a curve point, q_c != q_l*q_r)
+        ql, qr, qc = rng.fe(), rng.fe(), rng.choice([rng.fe(), 0, 1])
+        a_, b_ = rng.fe(), rng.fe()
+        bit = rng.choice([1, R - 1, 1, R - 1, 0])
+        acc = rng.fe() % 1000
+        accn = (2 * acc + bit) % R
+        ya = (bit * bit * (qr - 1) + 1) % R; xa = bit * ql % R
+        xy = bit * qc % R
+        if violate:
+            j = rng.below(5)
+            if j == 0: accn = (2 * acc + 2) % R; bit = 2; ya = (4 * (qr - 1) + 1) % R; xa = 2 * ql % R; xy = 2 * qc % R
+            elif j == 1: xy = (xy + 1) % R
+            elif j == 4: xy = bit * ql % R * qr % R; p.tags.append("xy=bit*ql*qr")
+        k = xy * a_ * b_ * D % R
+        x3 = (a_ * ya + b_ * xa) * inv((1 + k) % R) % R
+        y3 = (b_ * ya + a_ * xa) * inv((1 - k) % R) % R
+        if violate and j == 2: x3 = (x3 + 1) % R
+        if violate and j == 3: y3 = (y3 + 1) % R
+        q[1], q[2], q[5] = ql, qr, qc
+        q[9] = rng.choice([1, R - 1, 7])
+        ws = [p.w(x) for x in (a_, b_, xy, acc)]
+        nx = [p.w(x3), p.w(y3), p.w(rng.fe()), p.w(accn)]
+    elif fam == "logic-free":
+        # q_c solved so that an ARBITRARY quad triple satisfies the last component (q_c is not +-1)
+        a, b, d = rng.fe() % 1000, rng.fe() % 1000, rng.fe() % 1000
+        while True:
+            qa, qb, qd = rng.below(4), rng.below(4), rng.below(4)
+            den = (9 * qd - 3 * (qa + qb)) % R
+            if den != 0:
+                break
+        cw = qa * qb
+        e0 = delta_xor_and(qa, qb, cw, qd, 0)
+        qc = (-e0) * inv(den) % R
+        assert delta_xor_and(qa, qb, cw, qd, qc) == 0
+        an, bn, dn = 4 * a + qa, 4 * b + qb, 4 * d + qd
+        if violate:
+            j = rng.below(4)
+            if j == 0: an += 4
+            elif j == 1: bn += 4
+            elif j == 2: dn = 4 * d + ((qd + 1) % 4)
+            else: qc = (qc + 1) % R
+        q[5] = qc; q[8] = rng.choice([1, R - 1, 3])
+        ws = [p.w(x) for x in (a, b, cw, d)]
+        nx = [p.w(an), p.w(bn), p.w(rng.fe()), p.w(dn)]
     else:  # arith with all six coefficients and a public input
         a, b, c, d = (rng.fe() for _ in range(4))
         qq = [coeff_value(rng) for _ in range(6)]
@@ -128,6 +176,137 @@ def raw_family_case(rng, fam, violate):
     return p
 
 
+def _delta_pair(rng):
+    """(x, y) with delta(x) = -delta(y) != 0"""
+    while True:
+        x = 4 + rng.below(1000)
+        y = delta_inv((-delta(x)) % R)
+        if y is not None:
+            return x, y
+
+
+CANCEL_KINDS = ([("range", i, j) for i in range(4) for j in range(i + 1, 4)] + [("range", i, "arith") for i in range(4)] +
+                [("logic", i, j) for i in range(3) for j in range(i + 1, 3)] + [("logic", i, "arith") for i in range(5)] +
+                [("fixed", i, j) for i in range(4) for j in range(i + 1, 4)] + [("fixed", i, "arith") for i in range(4)] +
+                [("var", i, j) for i in range(3) for j in range(i + 1, 3)] + [("var", i, "arith") for i in range(3)])
+
+
+def cancel_case(rng, fam, i, j):
+    """one raw row on which exactly two identity components are non-zero and SUM TO ZERO (components i and j of one
+    widget, or component i and the arithmetic identity): rejected because the components carry independent challenge
+    weights; a change that gives two components the same weight accepts it"""
+    p = Prog(); p.tags = ["cancel-" + fam, "cancel-%s-%s" % (i, j)]
+    body(rng, p)
+    q = [0] * 11
+    t = [0] * 5                                    # target component values
+    arith_extra = 0                                # value of the arithmetic selectors' part that the widget also uses
+    if fam == "range":
+        if j == "arith":
+            xs = [rng.below(4) for _ in range(4)]; xs[i] = 4 + rng.below(1000); t[i] = delta(xs[i])
+        else:
+            xs = [rng.below(4) for _ in range(4)]; xs[i], xs[j] = _delta_pair(rng); t[i] = delta(xs[i])
+        d = rng.fe() % 1000
+        c = (4 * d + xs[0]) % R; b = (4 * c + xs[1]) % R; a = (4 * b + xs[2]) % R; dn = (4 * a + xs[3]) % R
+        q[7] = 1
+        ws = (a, b, c, d); nx = (rng.fe(), rng.fe(), rng.fe(), dn)
+    elif fam == "logic":
+        isx = rng.coin(); qc = R - 1 if isx else 1
+        a, b, d = rng.fe() % 1000, rng.fe() % 1000, rng.fe() % 1000
+        qa, qb = rng.below(4), rng.below(4)
+        qd = (qa ^ qb) if isx else (qa & qb)
+        cw = qa * qb
+        if j == "arith" and i == 3:
+            while not logic_alt_roots(qa, qb, isx):
+                qa, qb = rng.below(4), rng.below(4)
+            qd = (qa ^ qb) if isx else (qa & qb)
+            cw = logic_alt_roots(qa, qb, isx)[0]
+            t[3] = (cw - qa * qb) % R
+        elif j == "arith" and i == 4:
+            qd = (qd + 1 + rng.below(3)) % 4
+            t[4] = delta_xor_and(qa, qb, cw, qd, qc)
+        else:
+            quads = [qa, qb, qd]
+            if j == "arith":
+                quads[i] = 4 + rng.below(1000)
+            else:
+                quads[i], quads[j] = _delta_pair(rng)
+            t[i] = delta(quads[i])
+            qa, qb, qd = quads
+            cw = qa * qb % R
+            # keep the last component (which reads all quads) at zero: it is linear in d's quad only through 3c + qc*9c;
+            # solve nothing - instead pick the product wire as a root of the cubic when the quads are off-range
+            if delta_xor_and(qa, qb, cw, qd, qc) != 0:
+                return None
+        an, bn, dn = (4 * a + qa) % R, (4 * b + qb) % R, (4 * d + qd) % R
+        q[5] = qc; q[8] = 1
+        arith_extra = qc
+        ws = (a, b, cw, d); nx = (an, bn, rng.fe(), dn)
+    elif fam == "fixed":
+        A = random_curve_point(rng); B = random_curve_point(rng)
+        ql, qr, qc = B[0], B[1], B[0] * B[1] % R
+        acc = rng.fe() % 1000
+        if i == 0:
+            bit = rng.choice([2, 3, R - 2, 5])
+        else:
+            bit = rng.choice([0, 1, R - 1])
+        tb = bit * (bit - 1) * (bit + 1) % R
+        t[0] = tb
+        if j == "arith":
+            if i != 0:
+                t[i] = 1 + rng.below(1000)
+        else:
+            v = tb if i == 0 else 1 + rng.below(1000)
+            t[i] = v; t[j] = (-v) % R
+        accn = (2 * acc + bit) % R
+        ya = (bit * bit * (qr - 1) + 1) % R; xa = bit * ql % R
+        cwire = (bit * qc - t[1]) % R
+        k = cwire * A[0] * A[1] * D % R
+        if (1 + k) % R == 0 or (1 - k) % R == 0:
+            return None
+        x3 = (t[2] + A[0] * ya + A[1] * xa) * inv((1 + k) % R) % R
+        y3 = (t[3] + A[1] * ya + A[0] * xa) * inv((1 - k) % R) % R
+        q[1], q[2], q[5] = ql, qr, qc; q[9] = 1
+        arith_extra = (ql * A[0] + qr * A[1] + qc) % R
+        ws = (A[0], A[1], cwire, acc); nx = (x3, y3, rng.fe(), accn)
+    else:  # var
+        P, Q = random_curve_point(rng), random_curve_point(rng)
+        if j == "arith":
+            t[i] = 1 + rng.below(1000)
+        else:
+            v = 1 + rng.below(1000); t[i] = v; t[j] = (-v) % R
+        h = (P[0] * Q[1] - t[0]) % R
+        y1x2 = P[1] * Q[0] % R
+        k = D * h % R * y1x2 % R
+        if (1 + k) % R == 0 or (1 - k) % R == 0:
+            return None
+        x3 = (h + y1x2 - t[1]) * inv((1 + k) % R) % R
+        y3 = (P[1] * Q[1] + P[0] * Q[0] - t[2]) * inv((1 - k) % R) % R
+        q[10] = 1
+        ws = (P[0], P[1], Q[0], Q[1]); nx = (x3, y3, rng.fe(), h)
+    pi = None
+    if j == "arith":
+        q[6] = 1
+        pi = (-arith_extra - t[i]) % R             # arithmetic identity = -(component i)
+    wsr = [p.w(x) for x in ws]; nxr = [p.w(x) for x in nx]
+    p.op(raw(q, pi, [p.ref(x) for x in wsr]))
+    p.op(raw([0] * 11, None, [p.ref(x) for x in nxr]))
+    p.unsat()
+    return p
+
+
+def cancel_cases(rng, fams, reps):
+    out = []
+    for rep in range(reps):
+        for (fam, i, j) in CANCEL_KINDS:
+            if fam not in fams:
+                continue
+            for _ in range(20):
+                c = cancel_case(rng, fam, i, j)
+                if c is not None:
+                    out.append(c.case()); break
+    return out
+
+
 def mixed_selector_case(rng):
     """arbitrary selector combinations on random wires: the model decides"""
     p = Prog(); p.tags = ["raw-mixed-selectors"]
@@ -145,12 +324,13 @@ def run(ctx, broken):
     r = ProgRunner(ctx, "C05")
     n = 18 if ctx.tier == "quick" else 200
     cs = []
-    fams = ["range", "logic", "var", "fixed", "arith"]
+    fams = ["range", "logic", "var", "fixed", "arith", "fixed-free", "logic-free"]
     for i in range(n):
         for fam in fams:
             cs.append(raw_family_case(rng, fam, violate=(i % 2 == 1)).case())
     for i in range(n * 2):
         cs.append(mixed_selector_case(rng).case())
+    cs += cancel_cases(rng, ("range", "logic", "fixed", "var"), 1 if ctx.tier == "quick" else 6)
     r.run(cs)
     # ---- selected row on the last row of a full domain (wrap-around to row 0) and size boundaries
     pre = []
@@ -196,7 +376,10 @@ def run(ctx, broken):
     st = r.report(broken)
     st["rule"] = ("programs = 1-4 ordinary components + one raw row of each widget family (range/logic/variable-base/fixed-base/"
                   "arithmetic+PI, selector values 1,-1,other) with a satisfying assignment or one violating exactly one identity "
-                  "component, followed by an anchor row; raw rows with arbitrary mixed selectors; a selected row on the last row "
+                  "component, followed by an anchor row; the same with the selectors a widget READS chosen independently of the "
+                  "gadget's conventions (fixed-base q_l,q_r,q_c unrelated; logic q_c solved for an arbitrary quad triple); CANCELLING rows for every pair of components of every widget and every "
+                  "component against the arithmetic identity (exactly two non-zero components that sum to zero: rejected only "
+                  "because the components carry independent challenge weights); raw rows with arbitrary mixed selectors; a selected row on the last row "
                   "of a full domain (gates = 2^k, wrap-around to row 0) and at 2^k+-1; copy constraints: keys compiled from A, "
                   "instance B re-wires one position (equal / different value); constraint-count mismatch. Outcome of the real "
                   "prove+verify vs the model's proveOutcome (row identities on the padded domain, cyclic next row, copy classes, size).")
